@@ -10,6 +10,7 @@ from ..propagators.dmevolution import DensityMatrixEvolution
 from ..hilbertspace.operators import ReducedDensityMatrix
 from ..hilbertspace.operators import UnityOperator
 from ...core.units import kB_int
+from ...core.managers import energy_units
 from ..corfunctions.correlationfunctions import CorrelationFunction
 
 class KTHierarchy:
@@ -132,8 +133,11 @@ class KTHierarchy:
             self.gamma[ii] = 1.0/self.sbi.get_correlation_time(ii)
             
         self.lam = numpy.zeros(self.nbath, dtype=REAL)
-        for ii in range(self.nbath):
-            self.lam[ii] = self.sbi.get_reorganization_energy(ii)
+        # the accessor converts to the current energy units; the equations
+        # of motion need the value in internal units
+        with energy_units("int"):
+            for ii in range(self.nbath):
+                self.lam[ii] = self.sbi.get_reorganization_energy(ii)
             
         self.temp = self.sbi.get_temperature()
         self.kBT = self.temp*kB_int
